@@ -1,7 +1,7 @@
 SPECIFICATION Spec
 CONSTANTS
-  CL <- MC_CL2
-  OtherQ = {"c"}
+  CL <- MC_CL1
+  OtherQ = {"b"}
   DepQ = {"d"}
   Reps = {"r1"}
   WinOf <- MC_Win
